@@ -608,3 +608,58 @@ class GenerateExploits(Contract):
         d = S.a["self"].fields.get("exploits")
         e = I.ext_state["gex"]
         return [("C15.exploits-" + l, t) for l, t in expl_table_ok(I, d, e["n"])]
+
+
+# ---------------------------------------------------------------------------- _generate_os / _services / _processes
+# exactly the requested number of names, pairwise distinct (f"os_{i}": the decimal rendering of i inside constant text is
+# ASSUMED injective in i)
+
+class _GenerateNames(Contract):
+    callable_by_contract = False
+    bounded = False
+    tags = {"": ("C15",)}
+    field = None
+
+    def setup(self, I, variant):
+        n = z3.Int("gen_num_names")
+        I.ctx.assume(n >= 1)
+        g = gen_obj(I)
+        S = Scope()
+        S.extra["n"] = n
+        S.a = {"self": g}
+        S.call_args = ([g, SymV(n, "int")], {})
+        return S
+
+    def modifies(self, I, S):
+        return [S.a["self"]]
+
+    def ensures(self, I, S):
+        n = S.extra["n"]
+        seq = S.a["self"].fields.get(self.field)
+        ok = isinstance(seq, SymSeq)
+        out = [("C15.names-is-a-list", z3.BoolVal(ok))]
+        if not ok:
+            return out
+        a, b = z3.Int("gn_a"), z3.Int("gn_b")
+        out.append(("C15.requested-number-of-names", ival(seq.n) == n))
+        out.append(("C15.names-pairwise-distinct", z3.ForAll([a, b], z3.Implies(
+            z3.And(0 <= a, a < b, b < n), nameval(seq.elem(a)) != nameval(seq.elem(b))))))
+        return out
+
+
+@contract
+class GenerateOs(_GenerateNames):
+    qualname = GQ + "_generate_os"
+    field = "os"
+
+
+@contract
+class GenerateServices(_GenerateNames):
+    qualname = GQ + "_generate_services"
+    field = "services"
+
+
+@contract
+class GenerateProcesses(_GenerateNames):
+    qualname = GQ + "_generate_processes"
+    field = "processes"
